@@ -3,7 +3,7 @@ generator carries the reference model's notion of deadlines along so that it can
 lattice around them (-1 ms, -few us, 0, +few us, +1 ms)."""
 
 LATTICE = [-1000, -3, -2, -1, 0, 1, 2, 3, 1000]
-LIFETIMES = [5, 10, 20, 50, 100, 400]
+LIFETIMES = [5, 10, 20, 50, 100, 400, 20, 50, 100, 400, 1, 0]
 REPRS = ['uri', 'strlist', 'bytes', 'bytearray', 'memoryview', 'mixed', 'wire', 'wire_mv']
 NACK_REASONS = [0, 50, 100, 150, 151, 255, 256, 65535, 65536, 2 ** 32 - 1, 2 ** 32, 2 ** 64 - 1, 'none']       # 'none': a Nack header without NackReason element = reason None (0)
 RESET_KINDS = ['reset', 'reset', 'timeout', 'abort', 'pipe', 'unreach']      # how a stream dies when it is not a clean EOF
@@ -111,6 +111,9 @@ def rand_lp(rng, token=None, allow_token_on=False):
         hdr += [(h[0], h[1][:-2] + '0a' if h[1] else '')] * rng.randint(1, 2)
     hdr.sort(key=lambda x: x[0])
     lp = {'hdr': [[t, v] for t, v in hdr]}
+    if rng.random() < 0.08:
+        # the fragmentation headers of a packet that is NOT fragmented, spelled out (fragment 0 of 1)
+        lp['frag'] = rng.choice([[0, 1], [0, None], [None, 1]])
     if token is not None:
         lp['token'] = token
     elif allow_token_on and rng.random() < 0.3:
@@ -611,6 +614,10 @@ def gen_c05(rng, seed, tier='quick'):
         appv, _lt = add_producer_side(b, rng, fe, focus='c05')
         if appv is not None:
             extra['app_int_validator'] = appv
+            if rng.random() < 0.3:
+                # installed only after (some of) the routes: from then on it is the one in force for routes without their own
+                horizon = max([o['at'] for o in b.ops] + [2000])
+                extra['app_int_validator_at'] = rng.randint(1500, horizon)
     return b.scenario(seed, 'C05', **extra)
 
 
@@ -668,6 +675,9 @@ def gen_c06(rng, seed, tier='quick'):
             rec = {'id': iid, 'name': name, 'cbp': rng.random() < 0.4, 'life': rng.choice([100, 400]),
                    'te': 1000 + rng.randint(0, 3) * 1000,
                    'vs': {'verdict': 'PASS', 'latency_us': 0} if (fe == 'v2' or rng.random() < 0.7) else None}
+            if rec['vs'] is not None and rng.random() < 0.15:
+                # a validator that really suspends, now and then past the Interest's deadline
+                rec['vs'] = {'verdict': 'PASS', 'latency_us': rng.choice([1000, rec['life'] * 500, rec['life'] * 1000 + 1000, rec['life'] * 1000 + 5000])}
             ints.append(rec)
             b.op(rec['te'], 'express', id=iid, name=name, cbp=rec['cbp'], lifetime=rec['life'], validator=rec['vs'])
         if rng.random() < 0.3:
@@ -793,7 +803,7 @@ def gen_c10(rng, seed, tier='quick'):
             pid = ref['pid'] if isinstance(ref, dict) else ref
             if isinstance(ref, dict) and 'nack' in ref.get('lp', {}):
                 continue
-            lp = {'frag': rng.choice([[0, 2], [1, 2], [2, 5], [None, 3], [1, None], [0, 1], [1, 1], [0, None], [None, 1], [3, 0]])}
+            lp = {'frag': rng.choice([[0, 2], [1, 2], [2, 5], [None, 3], [1, None], [1, 1], [3, 0], [0, 0], [2, 1]])}
             if rng.random() < 0.25 and b.packets[str(pid)].get('k') == 'data':
                 lp = {'nack': rng.choice([50, 150, 'none'])}       # a Data inside a Nack envelope is no Nack and no Data
             elif rng.random() < 0.25:
